@@ -77,6 +77,7 @@ impl DerivedTS {
             &generics,
             self.bound.as_deref(),
             &self.dependencies,
+            &self.concrete,
         );
         let assoc_type = generate_assoc_type(&rust_ty, &crate_rename, &generics, &self.concrete);
         let name = self.generate_name_fn(&generics);
@@ -334,6 +335,7 @@ fn generate_impl_block_header(
     generics: &Generics,
     bounds: Option<&[WherePredicate]>,
     dependencies: &Dependencies,
+    concrete: &HashMap<Ident, Type>,
 ) -> TokenStream {
     use GenericParam as G;
 
@@ -366,7 +368,7 @@ fn generate_impl_block_header(
     let where_bound = match bounds {
         Some(bounds) => quote! { where #(#bounds),* },
         None => {
-            let bounds = generate_where_clause(crate_rename, generics, dependencies);
+            let bounds = generate_where_clause(crate_rename, generics, dependencies, concrete);
             quote! { #bounds }
         }
     };
@@ -378,11 +380,24 @@ fn generate_where_clause(
     crate_rename: &Path,
     generics: &Generics,
     dependencies: &Dependencies,
+    concrete: &HashMap<Ident, Type>,
 ) -> WhereClause {
+    // `name()` mentions every type parameter which is not made concrete, whether a field uses it or not
+    let named_params = generics
+        .type_params()
+        .filter(|p| !concrete.contains_key(&p.ident))
+        .map(|p| {
+            Type::Path(TypePath {
+                qself: None,
+                path: p.ident.clone().into(),
+            })
+        })
+        .collect::<Vec<_>>();
+
     let used_types = {
         let is_type_param = |id: &Ident| generics.type_params().any(|p| &p.ident == id);
 
-        let mut used_types = HashSet::new();
+        let mut used_types = named_params.iter().collect::<HashSet<_>>();
         for ty in dependencies.used_types() {
             used_type_params(&mut used_types, ty, is_type_param);
         }
@@ -418,7 +433,16 @@ fn used_type_params<'ty, 'out>(
             .for_each(|elem| used_type_params(out, elem, is_type_param)),
         Type::Path(TypePath {
             qself: Some(qself), ..
-        }) => used_type_params(out, &qself.ty, is_type_param),
+        }) => {
+            // an associated type of something which mentions a type parameter, e.g.
+            // `<T as TS>::OptionInnerType`: both need their bound
+            let mut inner = HashSet::new();
+            used_type_params(&mut inner, &qself.ty, is_type_param);
+            if !inner.is_empty() {
+                out.insert(ty);
+                out.extend(inner);
+            }
+        }
         Type::Path(TypePath { qself: None, path }) => {
             let first = path.segments.first().unwrap();
             if is_type_param(&first.ident) {
